@@ -120,6 +120,10 @@ bool guarded(Engine<Policy>& eng, const char* prefix, F&& f) {
     return false;
 }
 
+#ifndef HDYN_HASH_SEED
+#define HDYN_HASH_SEED 13081963
+#endif
+
 template<class Policy>
 void Engine<Policy>::do_update() {
     comp_.reset();
@@ -133,7 +137,7 @@ void Engine<Policy>::do_update() {
         // exhausted search (4 passes x budget attempts) for the SIGABRT handler to print
         auto budget = yorel::yomm2::verif::hash_attempt_budget;
         if (budget <= 2000) {
-            std::default_random_engine rnd(13081963);
+            std::default_random_engine rnd(HDYN_HASH_SEED);
             std::uniform_int_distribution<type_id> uniform_dist;
             std::ostringstream os;
             os << "#rng";
@@ -158,7 +162,7 @@ void Engine<Policy>::do_update() {
 
     if constexpr (PolicyTraits<Policy>::hashed) {
         // replay the multiplier stream the search consumed
-        std::default_random_engine rnd(13081963);
+        std::default_random_engine rnd(HDYN_HASH_SEED);
         std::uniform_int_distribution<type_id> uniform_dist;
         std::vector<type_id> mults;
         if (ok) {
